@@ -257,3 +257,133 @@ def region_for(world, eng, anchor_suffix):
         if parent is not None and parent.endswith(anchor_suffix):
             return Region(world, eng, r)
     return None
+
+
+# ------------------------------------------------------------------ modular normal forms (block-number arithmetic)
+def modform(eng, e, bits=16, depth=0):
+    """lin expr -> dict sym->coef (mod 2^bits) + const, expanding wrapping_add/sub result symbols into their operands"""
+    m = 1 << bits
+    const = e[0]
+    out = {}
+    for s, k in e[1]:
+        n = eng.sym_names[s]
+        if isinstance(n, tuple) and n and n[0] == "wrap" and n[2] == bits and depth < 12:
+            la = modform(eng, n[3], bits, depth + 1)
+            lb = modform(eng, n[4], bits, depth + 1)
+            sign = -1 if n[1] == "sub" else 1
+            const += k * (la[0] + sign * lb[0])
+            for s2, k2 in la[1].items():
+                out[s2] = out.get(s2, 0) + k * k2
+            for s2, k2 in lb[1].items():
+                out[s2] = out.get(s2, 0) + k * sign * k2
+        else:
+            out[s] = out.get(s, 0) + k
+    out = {s: k % m for s, k in out.items() if k % m}
+    return (const % m, out)
+
+
+def mod_equal(a, b):
+    return a[0] == b[0] and a[1] == b[1]
+
+
+def mod_sub(a, b, bits=16):
+    m = 1 << bits
+    out = dict(a[1])
+    for s, k in b[1].items():
+        out[s] = (out.get(s, 0) - k) % m
+    out = {s: k for s, k in out.items() if k}
+    return ((a[0] - b[0]) % m, out)
+
+
+def sym_is_wrap(eng, s, op=None):
+    n = eng.sym_names[s]
+    return isinstance(n, tuple) and n and n[0] == "wrap" and (op is None or n[1] == op)
+
+
+def single_sym(e):
+    if e[0] == 0 and len(e[1]) == 1 and e[1][0][1] == 1:
+        return e[1][0][0]
+    return None
+
+
+def recv_field_syms(R):
+    """integer symbols that are fields of a received packet: {sym: path}"""
+    out = {}
+    terms = set()
+    for n in R.recv_nodes():
+        for ev in R.by_node[n]:
+            if not ev.inlined and isinstance(ev.ret, tuple) and ev.ret and ev.ret[0] == "t":
+                terms.add(ev.ret[1])
+    for nm, sid in R.eng.sym_ids.items():
+        if isinstance(nm, tuple) and nm and nm[0] == "proj" and nm[1] in terms:
+            out[sid] = nm[2]
+    return out
+
+
+def call_sites_in_frame(R, nodes, fid):
+    """call sites of frame fid through which the given (deeper) nodes are reached, plus nodes of fid itself"""
+    out = set()
+    for n in nodes:
+        f = n[0]
+        if f == fid:
+            out.add(n)
+            continue
+        while len(f) > len(fid):
+            site = f[-1]
+            f = f[:-1]
+            if f == fid and isinstance(site, tuple) and site[0] == "call":
+                out.add((fid, site[3]))
+    return out
+
+
+def window_roots(R):
+    """roots of Window objects created in the region: dest of the Window::new calls"""
+    out = []
+    for e in R.events:
+        if e.inlined and base_name(e) == "tftpd::window::Window::new":
+            if e.dest not in out:
+                out.append(e.dest)
+    return out
+
+
+def worker_upvar(R):
+    """index of the closure upvar that holds the Worker value (by type), or None"""
+    prog = R.prog
+    clos = R.name[len("thread:"):]
+    body = prog.bodies.get(clos)
+    if body is None:
+        return None
+    t = prog.types[body.local_ty(1)]
+    if t["k"] != "closure":
+        return None
+    for i, u in enumerate(t["upvars"]):
+        ut = prog.types[u]
+        if ut["k"] == "adt" and ut["path"] == WORKER:
+            return i
+    return None
+
+
+def env_field(R, sym, field_name):
+    """is integer symbol `sym` the captured Worker's field `field_name`?"""
+    nm = R.eng.sym_names[sym] if sym is not None else None
+    u = worker_upvar(R)
+    fi = R.prog.field_index(WORKER, field_name)
+    return isinstance(nm, tuple) and nm and nm[0] == "env" and u is not None and fi is not None and tuple(nm[2]) == (u, fi)
+
+
+def truncating_open(R, e):
+    """File::create, or an OpenOptions chain with write(true) create(true) truncate(true) and no append(true)"""
+    n = base_name(e)
+    if n == "std::fs::File::create":
+        return True, 0
+    if n != "std::fs::OpenOptions::open":
+        return False, 0
+    flags = {}
+    for x in R.events:
+        bn = base_name(x)
+        if x.ctx == e.ctx and bn.startswith("std::fs::OpenOptions::") and bn.rsplit("::", 1)[-1] in ("write", "create", "truncate", "append", "create_new", "read"):
+            v = x.args[1] if len(x.args) > 1 else None
+            c = v[1][0] if isinstance(v, tuple) and v[0] == "i" and not v[1][1] else None
+            flags[bn.rsplit("::", 1)[-1]] = c
+    ok = flags.get("write") == 1 and flags.get("create") == 1 and flags.get("truncate") == 1 and not flags.get("append")
+    return ok, 1
